@@ -35,6 +35,33 @@ CTOR_OK = {
 }
 
 
+def is_record_class(repo, cname):
+    """a class whose construction cannot touch the objects handed to it: no base class from the package (or only NamedTuple / object), and
+    either no `__init__` (dataclass, NamedTuple) or an `__init__` that only stores names / attribute reads / literals in `self.<attr>`"""
+    c = repo.classes.get(cname)
+    if c is None:
+        return False
+    if any(b in repo.classes for b in c.base_names) or any(b not in ("NamedTuple", "object", "typing.NamedTuple") for b in c.base_names):
+        return False
+    for name, fn in c.methods.items():
+        if name in ("__new__", "__post_init__", "__init_subclass__", "__setattr__"):
+            return False
+    init = c.methods.get("__init__")
+    if init is None:
+        return True
+    for s_ in init.body:
+        if isinstance(s_, ast.Expr) and isinstance(s_.value, ast.Constant):
+            continue
+        if isinstance(s_, (ast.Assign, ast.AnnAssign)):
+            tg = s_.targets if isinstance(s_, ast.Assign) else [s_.target]
+            val = s_.value
+            if all(isinstance(t, ast.Attribute) and isinstance(t.value, ast.Name) and t.value.id == "self" for t in tg) and val is not None \
+                    and not any(isinstance(x, (ast.Call, ast.Await, ast.Yield)) for x in ast.walk(val)):
+                continue
+        return False
+    return True
+
+
 def t1_t2(repo, res, roots, pid_rule_prefix="", lazy=LAZY_INIT, ctor_ok=CTOR_OK, extra_ok=None):
     g = CallGraph(repo)
     for r in roots:
@@ -99,6 +126,9 @@ def t1_t2(repo, res, roots, pid_rule_prefix="", lazy=LAZY_INIT, ctor_ok=CTOR_OK,
             c = repo.classes.get(cname)
             if c is None or any(b.name in ("Exception", "Warning") or b.name.startswith("Magpylib") for b in repo.mro(cname)) \
                     or any(bn in ("Exception", "Warning", "ValueError", "TypeError") for bn in c.base_names):
+                continue
+            if is_record_class(repo, cname):
+                res.ob(f"T2:ctor:{fname}:{cname}", True, {"rule": "T2-ctor", "function": fname, "constructs": cname, "accepted_as": "plain record class (constructor only stores its arguments)"})
                 continue
             short = fname.split(".")[-1]
             kws = {k.arg for k in node.keywords}
